@@ -12,7 +12,7 @@ ENGINES = [
     {
         "name": "enum",
         "path": "vf/engine/runner.py vf/ref/",
-        "serves_properties": ["C01", "C02", "C03", "C15"],
+        "serves_properties": ["C01", "C02", "C03", "C15", "C17"],
         "kind_free_text": "bounded-exhaustive enumerator for sequential code: Cartesian products of boundary alphabets, exhaustive short "
         "byte spaces, mutation neighbourhoods and complete fault/lifecycle products, every case run on the real code and compared with an "
         "independent reference (ISO 14229-1 layout table vf/ref/iso14229.py, lifecycle model vf/ref/c15_model.py); 16-way process pool",
@@ -155,6 +155,21 @@ CHECKS = [
         "code 1 when a reached session cannot return to the default session and --reset is off).",
         "note": "Trusted: model ECU, reference BFS, vloop; benign reply timing (timing faults are C04/C08). Paths are read from the RESULT log lines. "
         "Not covered: more than 4 sessions, hooks (--with-hooks), power cycling.",
+    },    {
+        "id": "C17",
+        "engine": "enum",
+        "level": "exploration",
+        "technique": "bounded-exhaustive write/read round trips through the real zstd log handler plus explicit-state BFS over PenlogReader operation sequences and the in-process hr entry point, compared with a list-based reference model",
+        "text": "Every record of a 616-record alphabet (7 levels x 4 tag sets x 11 texts incl. newline/CRLF/NUL/emoji/'<3>' look-alike/70 kB x exception "
+        "trace) as a single-record log, all level sequences and all text-kind sequences of length <= 3 (quick) / <= 4 (thorough), thorough also all "
+        "level x text pairs, are logged through get_logger/add_zst_log_handler/remove_zst_log_handler and read back as .zst, .gz, plain, stdin pipe "
+        "and stdin file, with and without the '<prio>' prefix: text, level, tags, timestamp, len, records(p, k, reverse) for all 9 thresholds x k in "
+        "-(n+1)..n+1 x both directions, and hr {forward, reverse, --head, --tail} x n in {0,1,len-1,len,len+1,100} x all thresholds must equal the "
+        "reference slices; all reader operation sequences up to depth 3 / 4 on logs of 0..N+1 records are explored breadth-first with state "
+        "deduplication (1.2 M evaluations quick, 10 M thorough).",
+        "note": "Trusted: python logging/queue, zstandard/gzip, str(PenlogRecord) as rendering of one record, the reference model. Admitted sets: trace in "
+        "stacktrace field or appended to text; head/tail count before or after the filter; errors for positive offsets >= len and out-of-range seeks. "
+        "Not covered: sequences longer than N with full attribute products, cursed-hr, colour output, concurrent handlers.",
     },
 ]
 
